@@ -515,9 +515,62 @@ def _classify_bytes(data, gens):
     return ("mixture", None)
 
 
+LEFTOVERS = {
+    # what an earlier interrupted write may have left behind (all of them satisfy the property)
+    "between_renames": {"name": None, "old": 0, "new": 0},   # died between rename(name, .old) and rename(.new, name)
+    "new_left": {"name": 0, "old": None, "new": 0},          # died after .new was complete, before the rotation
+    "old_left": {"name": 0, "old": 0, "new": None},          # died before remove(.old)
+}
+
+
+def execute_leftover(sc, log=None):
+    """A run *starts* in a directory as an earlier crash left it and dies at its first step, before
+    it has written anything: a complete checkpoint must still be there."""
+    from checks import c17
+
+    if log is None:
+        log = EventLog()
+    recipe = sc["recipe"]
+    spec, meta = c17.build_spec(recipe)
+    res = {"violations": [], "states": [], "stats": {"attempts": 1, "crashed": 0, "completed": 0, "fs_ops": 0, "exceptions": 0}, "fired": {}, "digest": None}
+    fs = SimFS(buffer_size=sc["buffer"])
+    first = c17.build_spec(dict(recipe, checkpoint_all=False, iterations=recipe["freq"]))[0]
+    ctl0, out0 = c17.run_incarnation(fs, first, meta, "float64", sc["seed"], 0, {"kind": "none"}, EventLog(), False)
+    prev = fs.durable(NAME)
+    if out0.kind != "finished" or prev is None:
+        res["excluded"] = "run loop scene does not run to completion on this tree"
+        res["digest"] = log.digest()
+        return res
+    layout = LEFTOVERS[sc["leftover"]]
+    for key, path in (("name", NAME), ("old", OLD), ("new", NEW)):
+        if layout[key] is None:
+            fs.files.pop(path, None)
+        else:
+            fs.put(path, prev)
+    gens = [prev]
+    before = {k: _classify_bytes(fs.durable(p), gens) for k, p in (("name", NAME), ("old", OLD), ("new", NEW))}
+    resumed = layout["name"] is not None and sc.get("resumed", False)
+    ctl, out = c17.run_incarnation(fs, spec, meta, "float64", sc["seed"] + 1, ctl0.position if resumed else 0, {"kind": "iter", "steps": 1}, log, resumed)
+    after = {k: _classify_bytes(fs.durable(p), gens) for k, p in (("name", NAME), ("old", OLD), ("new", NEW))}
+    outcome = {"crash": "crash", "exception": "exception", "finished": "completed"}[out.kind]
+    res["stats"]["crashed" if outcome == "crash" else ("exceptions" if outcome == "exception" else "completed")] = 1
+    res["fired"]["kill_at_first_step"] = 1
+    log.add("leftover", sc["leftover"], recipe.get("algorithm") or recipe.get("operators"), outcome, _abbr(after))
+    res["states"].append("start:%s|%s|%s|%s|%s" % (_kinds(before), "kill_at_first_step", "-", outcome, _kinds(after)))
+    if not any(v[0] == "complete" for v in after.values()):
+        v = _viol("checkpoint_lost", None, before, after, "-", "the run started in a directory holding complete checkpoint(s) (%s) left by an interrupted write, and died at its first step: "
+                  "no complete checkpoint is left (%s)" % (_abbr(before), _abbr(after)))
+        v["signature"]["caller"] = "run-start"
+        res["violations"].append(v)
+    res["digest"] = log.digest()
+    return res
+
+
 def execute_runloop(sc, log=None):
     from checks import c17
 
+    if sc.get("leftover"):
+        return execute_leftover(sc, log)
     if log is None:
         log = EventLog()
     spec, meta, snap, base, gens, oplogs, kinds = _runloop_setup(sc)
@@ -558,6 +611,8 @@ def runloop_scenarios(recipe, resumed, buffer, seed, rng):
     for j, (oplog, uw) in enumerate(oplogs, start=1):
         for f in enumerate_faults(oplog, uw, rng, interrupts=2):
             out.append(dict(base_sc, fault=dict(f, save=j)))
+    for name in sorted(LEFTOVERS):
+        out.append(dict(base_sc, leftover=name))
     return out
 
 
